@@ -268,8 +268,17 @@ func (p *Prog) resolveRenames() {
 		}
 		var best, second float64
 		var bestF *ssa.Function
+		/* In its own package first; failing that anywhere in the module (the
+		function moved to a package of its own, or to its only user's). */
+		inPkg := false
 		for _, f := range newcomers {
-			if taken[f] || f.Pkg.Pkg.Path() != ri.Pkg {
+			if !taken[f] && f.Pkg.Pkg.Path() == ri.Pkg && score(ri.Marks, f) >= 0.6 {
+				inPkg = true
+			}
+		}
+		elsewhere := func(f *ssa.Function) bool { return inPkg && f.Pkg.Pkg.Path() != ri.Pkg }
+		for _, f := range newcomers {
+			if taken[f] || elsewhere(f) {
 				continue
 			}
 			if sc := score(ri.Marks, f); sc > best {
@@ -278,7 +287,7 @@ func (p *Prog) resolveRenames() {
 		}
 		/* The runner-up is not a piece of the winner's own body. */
 		for _, f := range newcomers {
-			if taken[f] || f.Pkg.Pkg.Path() != ri.Pkg || f == bestF || (nil != bestF && foldedIn[bestF][f]) {
+			if taken[f] || elsewhere(f) || f == bestF || (nil != bestF && foldedIn[bestF][f]) {
 				continue
 			}
 			if sc := score(ri.Marks, f); sc > second {
